@@ -35,6 +35,8 @@ type LoopSpec struct {
 	Invariants []Clause
 	Decreases  []Expr
 	Unroll     bool
+	Assumes    []Clause // assumed at the loop head without proof; listed as assumptions
+	Terminates string   // non-empty: termination assumed, with this reason
 }
 
 type Contract struct {
@@ -624,6 +626,14 @@ func loadSpecFiles(root string) (*SpecFile, []string, error) {
 					}
 				case "unroll":
 					ls.Unroll = true
+				case "assume":
+					c, err := mk(arg)
+					if err != nil {
+						return nil, nil, err
+					}
+					ls.Assumes = append(ls.Assumes, c)
+				case "terminates":
+					ls.Terminates = arg
 				default:
 					return nil, nil, fmt.Errorf("%s: bad loop clause %q", where, parts[1])
 				}
